@@ -98,6 +98,16 @@ package token
 //@   property C03
 //@   ensures [plain_string] result.1 == nil && result.0.Kind == KindString && result.0.Raw == expr && len(result.0.DependsOn) == 0
 
+// %fn(args)% with an unregistered fn: the catch-all for call syntax (the registered functions are tried first)
+//@ func (FactoryUnexpectedFunction).Supports
+//@   property C03
+//@   ensures [iff] result <==> (len(expr) >= 2 && hasPrefix(expr, "%") && hasSuffix(expr, "%") && matches(substr(expr, 1, len(expr) - 2), regexSimpleFn))
+// a registered function claims only calls of its own name (the converse - every such call is claimed - needs uniqueness
+// of the regex decomposition, which no installed solver decides in time: not stated)
+//@ func (*FactoryFunction).Supports
+//@   property C03 C15
+//@   ensures [call_syntax_only] result ==> len(expr) >= 2 && hasPrefix(expr, "%") && hasSuffix(expr, "%") && matches(substr(expr, 1, len(expr) - 2), regexSimpleFn)
+//@   ensures [own_name_only] result ==> hasPrefix(expr, "%" + f.fn + "(")
 //@ func (FactoryUnexpectedFunction).Create
 //@   property C03
 //@   ensures [always_rejected] result.1 != nil
@@ -134,6 +144,7 @@ package token
 //@   ensures [one_token_per_chunk] t.chunker.Chunks(s).1 == nil ==> len(result.0) == len(t.chunker.Chunks(s).0)
 //@        && (forall k int :: 0 <= k && k < len(result.0) ==> result.0[k] == t.factory.Create(t.chunker.Chunks(s).0[k]).0)
 //@   ensures [accept_sound @a] result.1 == nil ==> t.chunker.Chunks(s).1 == nil && (forall k int :: 0 <= k && k < len(t.chunker.Chunks(s).0) ==> t.factory.Create(t.chunker.Chunks(s).0[k]).1 == nil)
+//@   ensures [accept_complete @b] t.chunker.Chunks(s).1 == nil && (forall k int :: 0 <= k && k < len(t.chunker.Chunks(s).0) ==> t.factory.Create(t.chunker.Chunks(s).0[k]).1 == nil) ==> result.1 == nil
 //@   loop 1
 //@     invariant [len] len(tkns) == len(chunks) && len(errs) == len(chunks)
 //@     invariant [done] forall k int :: 0 <= k && k < $i ==> tkns[k] == t.factory.Create(chunks[k]).0 && errs[k] == t.factory.Create(chunks[k]).1
